@@ -204,6 +204,9 @@ def run(ctx):
             else:
                 kinds = [rng.choice(modgen.KINDS + modgen.REQ_MODULE_KINDS) for _ in range(rng.randint(2, 9))]
             jobs.append((tmp, idx, kinds, rng.choice(['functions', 'mixed']), STYLES[idx % 3], OPTIONS[(idx // 3) % len(OPTIONS)]))
+        # many failures in one module: the exit status is a small number that a process can report (256 failures are not "0")
+        jobs.append((tmp, nmods, ['fail_output'] * 256 + ['pass'], 'functions', 'freeform', ''))
+        jobs.append((tmp, nmods + 1, ['fail_exc'] * 512, 'functions', 'google', ''))
         sub = common.pmap(_sub_worker, jobs)
         ns = 0
         for r in sub:
